@@ -22,7 +22,7 @@ def stress_programs(tier):
     deep = X.proc(True, [('val', 'n'), ('val', 'acc')], ['t', 'u'],
                   X.seq([X.ass(X.var('t'), X.bi('+', X.var('acc'), X.num(1))), X.ass(X.var('u'), X.var('n')),
                          X.iff(X.bi('=', X.var('n'), X.num(0)), X.ret(X.var('t')), X.ret(X.call('deep', [X.bi('-', X.var('u'), X.num(1)), X.var('t')])))]))
-    for depth in ((50, 400) if tier == "quick" else (50, 400, 3000, 20000)):
+    for depth in ((50, 400) if tier == "quick" else (50, 400, 3000)):
         out.append(('stress:deep:%d' % depth, X.std_program(X.seq([X.putc(X.call('deep', [X.num(depth), X.num(0)]))]), {'deep': deep}), depth * 60 + 2000, depth + 50))
     # arrays filling the top of memory: the stack is squeezed directly above the image
     for n in ((150000,) if tier == "quick" else (150000, 199000, 199600)):
